@@ -26,6 +26,7 @@ from typing import Any, Callable, List, Optional
 import z3
 
 Obj = z3.DeclareSort("Obj")
+PY_NONE = z3.Const("None", Obj)   # Python's None when it is stored where objects are stored
 
 
 class Unsupported(Exception):
@@ -77,6 +78,8 @@ class Ctx:
     def fresh(self, name, sort):
         self.n += 1
         c = z3.Const(f"{name}!{self.n}", sort)
+        if sort == z3.IntSort():
+            self.axioms.append(TR(c))
         if self.fresh_log is not None:
             self.fresh_log.append(c)
         return c
@@ -100,9 +103,28 @@ class Ctx:
         for e in extra:
             s.add(e)
         t0 = time.time()
+        quick = ms > 4000
+        if quick:
+            s.set("timeout", 2500)
         r = s.check()
-        self.solver_s += time.time() - t0
         self.queries += 1
+        if r == z3.unknown and quick:
+            # portfolio: drop quantified facts and trigger markers (sound for `unsat`: fewer assumptions) so that
+            # z3's arithmetic-only strategy applies to the quantifier-free core of the query
+            core_ = [p for p in list(self.pc) + list(extra) if not _has_quantifier(p) and not _mentions_decl(p, "TR")]
+            s2 = z3.Solver()
+            s2.set("timeout", ms)
+            for p in core_:
+                s2.add(p)
+            r2 = s2.check()
+            self.queries += 1
+            if r2 == z3.unsat:
+                r, s = r2, s2
+            else:
+                s.set("timeout", ms)
+                r = s.check()
+                self.queries += 1
+        self.solver_s += time.time() - t0
         return r, s
 
     # -- forks
@@ -161,6 +183,37 @@ class Ctx:
         if z3.is_true(z3.simplify(f)):
             self.obls.append({"name": name, "status": "discharged", "backend": "simplifier", "s": 0.0, "detail": detail})
             return True
+        parts = []
+        strip_goal(f, [], parts)
+        if len(parts) > 1 or (parts and parts[0][0]):
+            allok = True
+            worst = None
+            for hyps, g in parts:
+                r, s = self._check(list(hyps) + [z3.Not(g)], self.timeout_ms)
+                if r != z3.unsat:
+                    allok = False
+                    worst = (r, s, g)
+                    if r == z3.sat:
+                        break
+            if not allok and worst[0] == z3.unknown:
+                # portfolio: nonlinear integer queries are sensitive to their shape - retry the unsplit goal
+                r2, s2 = self._check([z3.Not(f)], self.timeout_ms)
+                if r2 == z3.unsat:
+                    allok = True
+                elif r2 == z3.sat:
+                    worst = (r2, s2, f)
+            dt = time.time() - t0
+            if allok:
+                self.obls.append({"name": name, "status": "discharged", "backend": "z3", "s": dt, "detail": detail})
+                return True
+            r, s, g = worst
+            if r == z3.sat:
+                self.obls.append({"name": name, "status": "refuted", "backend": "z3", "s": dt, "detail": detail,
+                                  "model": self.model_inputs(s.model()), "formula": str(z3.simplify(g))[:600]})
+            else:
+                self.obls.append({"name": name, "status": "undecided", "backend": "z3", "s": dt,
+                                  "detail": detail + " reason=" + s.reason_unknown() + " goal=" + str(g)[:300]})
+            return False
         r, s = self._check([z3.Not(f)], self.timeout_ms)
         dt = time.time() - t0
         if r == z3.unsat:
@@ -187,6 +240,97 @@ class Ctx:
             except Exception as e:  # pragma: no cover
                 out[k] = f"<{type(e).__name__}: {e}>"
         return out
+
+
+# ------------------------------------------------------------------------------------------
+# quantifiers with explicit triggers
+
+TR = z3.Function("TR", z3.IntSort(), z3.BoolSort())   # trigger marker: TR(t) is asserted for every index term of interest
+
+
+def _select_patterns(body, j):
+    out, seen = [], set()
+
+    def rec(e):
+        if not z3.is_app(e) or e.get_id() in seen:
+            return
+        seen.add(e.get_id())
+        if z3.is_select(e) and e.arg(1).eq(j) and not _mentions(e.arg(0), j):
+            out.append(e)
+        for ch in e.children():
+            rec(ch)
+    rec(body)
+    return out
+
+
+def _mentions(e, j):
+    if e.eq(j):
+        return True
+    return any(_mentions(c, j) for c in e.children()) if z3.is_app(e) else False
+
+
+def _has_quantifier(e):
+    seen = set()
+
+    def rec(x):
+        if x.get_id() in seen:
+            return False
+        seen.add(x.get_id())
+        if z3.is_quantifier(x):
+            return True
+        return any(rec(c) for c in x.children())
+    return rec(e)
+
+
+def _mentions_decl(e, name):
+    seen = set()
+
+    def rec(x):
+        if x.get_id() in seen:
+            return False
+        seen.add(x.get_id())
+        if z3.is_app(x) and x.decl().name() == name:
+            return True
+        return any(rec(c) for c in x.children())
+    return rec(e)
+
+
+def mk_forall(j, guard, body):
+    """forall j. guard => body, instantiated on TR(j) markers and on array reads at j"""
+    pats = [TR(j)] + _select_patterns(body, j)[:4]
+    return z3.ForAll([j], z3.Implies(guard, body), patterns=pats)
+
+
+def strip_goal(goal, hyps, out, depth=0):
+    """reduce `hyps => goal` to a list of (hyps, atom-goal) by splitting conjunctions, moving antecedents to the
+    hypotheses and instantiating leading universal quantifiers with fresh constants (marked with TR)."""
+    if depth > 6 or len(out) > 60:
+        out.append((hyps, goal))
+        return
+    if z3.is_and(goal):
+        for a in goal.children():
+            strip_goal(a, hyps, out, depth + 1)
+        return
+    if z3.is_implies(goal):
+        strip_goal(goal.arg(1), hyps + [goal.arg(0)], out, depth + 1)
+        return
+    if z3.is_or(goal) and goal.num_args() == 2 and z3.is_not(goal.arg(0)):
+        strip_goal(goal.arg(1), hyps + [goal.arg(0).arg(0)], out, depth + 1)
+        return
+    if z3.is_quantifier(goal) and goal.is_forall():
+        c = cur()
+        consts = []
+        extra = []
+        for i in range(goal.num_vars()):
+            c.n += 1
+            k = z3.Const(f"sk!{c.n}", goal.var_sort(i))
+            consts.append(k)
+            if goal.var_sort(i) == z3.IntSort():
+                extra.append(TR(k))
+        body = z3.substitute_vars(goal.body(), *reversed(consts))
+        strip_goal(body, hyps + extra, out, depth + 1)
+        return
+    out.append((hyps, goal))
 
 
 # ------------------------------------------------------------------------------------------
@@ -224,6 +368,8 @@ def lift(x):
         return z3.RealVal(str(x))
     if isinstance(x, str):
         return z3.StringVal(x)
+    if x is None:
+        return PY_NONE
     if z3.is_expr(x):
         return x
     try:
@@ -240,15 +386,15 @@ def lift(x):
 def wrap_expr(e):
     s = e.sort()
     if s == z3.IntSort():
-        e = z3.simplify(e)
-        return e.as_long() if z3.is_int_value(e) else SInt(e)
+        se = z3.simplify(e)   # only to recognise constants: the term itself keeps the shape the code gave it
+        return se.as_long() if z3.is_int_value(se) else SInt(e)
     if s == z3.RealSort():
         return SReal(e)
     if s == z3.BoolSort():
-        e = z3.simplify(e)
-        if z3.is_true(e):
+        se = z3.simplify(e)
+        if z3.is_true(se):
             return True
-        if z3.is_false(e):
+        if z3.is_false(se):
             return False
         return SBool(e)
     if s == z3.StringSort():
@@ -754,6 +900,8 @@ def _sget(node, i):
             return vals[i]
         if len(vals) == 1:
             return vals[0]
+        if not vals:
+            return SObj(None, cur().fresh("undef", Obj))   # element of an empty sequence: only under a false guard
 
         def chain(k):
             if k == len(vals) - 1:
@@ -983,7 +1131,7 @@ def _sall(node, pred, _):
         body = fml(pred(_sget(node, SInt(j))))
     finally:
         c.nofork -= 1
-    return z3.ForAll([j], z3.Implies(z3.And(j >= 0, j < lift(n)), body))
+    return mk_forall(j, z3.And(j >= 0, j < lift(n)), body)
 
 
 def val_eq(a, b):
@@ -992,7 +1140,7 @@ def val_eq(a, b):
         return seq_eq(SSeq.of(a), SSeq.of(b))
     if isinstance(a, (tuple, list, SSeq)) or isinstance(b, (tuple, list, SSeq)):
         return z3.BoolVal(False)
-    if a is None or b is None:
+    if (a is None or b is None) and not (isinstance(a, SObj) or isinstance(b, SObj)):
         return z3.BoolVal(a is b)
     if isinstance(a, Sym) or isinstance(b, Sym):
         try:
@@ -1023,7 +1171,7 @@ def seq_eq(a, b):
         body = val_eq(a.get(SInt(j)), b.get(SInt(j)))
     finally:
         c.nofork -= 1
-    return z3.And(lift(la) == lift(lb), z3.ForAll([j], z3.Implies(z3.And(j >= 0, j < lift(la)), body)))
+    return z3.And(lift(la) == lift(lb), mk_forall(j, z3.And(j >= 0, j < lift(la)), body))
 
 
 # ------------------------------------------------------------------------------------------
